@@ -81,6 +81,19 @@ def run(ctx):
     if len(verdicts) != len(lits):
         res["corr_broken"].append({"kind": "harness", "detail": "consts: %d answers for %d literals" % (len(verdicts), len(lits))})
         verdicts += [False] * (len(lits) - len(verdicts))
+    # the same literals declared inside an interface and inside a derived interface: the range check
+    # must not depend on where the constant is declared
+    for scope in ("--iface", "--derived"):
+        rc2, out2, err2 = vlib.run([ctx["harness"], "consts", lf, scope], timeout=300)
+        v2 = [l.startswith("ok") for l in out2.strip().split("\n")]
+        if len(v2) != len(lits):
+            res["corr_broken"].append({"kind": "harness", "detail": "consts %s: %d answers for %d literals" % (scope, len(v2), len(lits))})
+            continue
+        for (t, l), a, b in zip(lits, verdicts, v2):
+            if a != b:
+                res["failures"].append({"property": prop, "type": t, "literal": l, "scope": scope[2:],
+                                        "what": "constant %s %s is %s at file level but %s when declared in an interface (%s)" % (
+                                            t, l, "accepted" if a else "rejected", "accepted" if b else "rejected", scope[2:])})
     # ---- L0: model / Spec vs implementation, evaluated in Coq
     defs = []
     B = 150
